@@ -269,9 +269,33 @@ func init() {
 					"{let $" + w2 + "}c{/let}{$" + w2 + "}{call .u}{param " + w + ": $" + w + " /}{/call}\n{/template}\n/** @param? " + w + " */\n{template .u}{$" + w + " ?: ''}{/template}\n"})
 				ctx.Cell("reserved-word-names")
 			}
+			if i%3 == 0 && len(files) >= 2 {
+				// file names that are prefixes / suffixes of one another, the longer one first: names identify files exactly
+				files[0].Name = "admin_" + files[1].Name
+				if len(files) >= 3 {
+					files[2].Name = files[1].Name + ".soy"
+				}
+				ctx.Cell("overlapping-file-names")
+			}
 			reg, err := compileRegistry(files, prog.B.Globals)
 			if err != nil {
 				return fw.Result{Verdict: fw.Skip}
+			}
+			// the other entry point: Generator.WriteFile(name) is Write(that file) with default options
+			gnr := soyjs.NewGenerator(reg)
+			for _, sf := range reg.SoyFiles {
+				var a, b bytes.Buffer
+				errA := gnr.WriteFile(&a, sf.Name)
+				errB := soyjs.Write(&b, sf, soyjs.Options{})
+				ctx.Obs("generator_writefile_compared", 1)
+				if (errA == nil) != (errB == nil) || a.String() != b.String() {
+					return fw.Result{Verdict: fw.Violated, Key: "generator-writefile-differs-from-write", Case: files,
+						Msg: fmt.Sprintf("Generator.WriteFile(%q) gives %d bytes (err %v), soyjs.Write of that file %d bytes (err %v)", sf.Name, a.Len(), errA, b.Len(), errB)}
+				}
+			}
+			var nf bytes.Buffer
+			if err := gnr.WriteFile(&nf, "no/such/file.soy"); err == nil || nf.Len() != 0 {
+				return fw.Result{Verdict: fw.Violated, Key: "generator-writefile-unknown-name", Case: files, Msg: fmt.Sprintf("WriteFile of a name that is not in the bundle: err %v, %d bytes written", err, nf.Len())}
 			}
 			src := ""
 			for _, f := range files {
